@@ -11,4 +11,5 @@ for p in "$@"; do
   echo "$out" | grep -E "^VIOLATION|^  rule=|KNOWN|HARNESS|cut short" | cut -c1-330 | head -12
 done
 git -C /repo checkout -- .
+git -C /verif checkout -- evidence 2>/dev/null
 find /verif/replays -name '*.json' -newer "$PATCH" -delete 2>/dev/null
